@@ -31,6 +31,7 @@ type FuncResult struct {
 	GuardClauses []string      `json:"guard_clauses,omitempty"` // requires of callee clauses no call matches on this tree: they guard calls a change may introduce
 	Loops        int           `json:"loops"`
 	LoopSigs     []string      `json:"loop_sigs,omitempty"`
+	LoopForms    []string      `json:"loop_forms,omitempty"`
 	LoopRemap    bool          `json:"loops_remapped,omitempty"`
 	LoopsNoInv   []int         `json:"loops_without_invariant,omitempty"`
 	Drift        []string      `json:"drift,omitempty"`
@@ -111,6 +112,10 @@ func main() {
 	if err == nil && *loopSigsF != "" {
 		if data, e := os.ReadFile(*loopSigsF); e == nil {
 			_ = json.Unmarshal(data, &w.baseLoopSigs)
+		}
+		// the forms are kept next to the signatures: <file>.forms
+		if data, e := os.ReadFile(*loopSigsF + ".forms"); e == nil {
+			_ = json.Unmarshal(data, &w.baseLoopForms)
 		}
 	}
 	if err != nil {
@@ -353,6 +358,7 @@ func verifyFunction(w *World, fn *ssa.Function, unroll int) *FuncResult {
 	fr.Trusted = sortedKeys(g.trustedUsed)
 	fr.Loops = len(g.loops)
 	fr.LoopSigs = g.loopSigs
+	fr.LoopForms = g.loopForms
 	fr.LoopRemap = g.loopRemapped
 	for _, li := range g.loops {
 		if li.spec == nil || len(li.spec.Invariants) == 0 {
